@@ -14,7 +14,7 @@ txt = ["### 7.4 Seeded changes: which checks catch which changes",
        "Fresh sub-agents were given only the text of one property and a scratch worktree of `/repo`",
        "(nothing from `/verif`) and asked for changes that break the property, still compile and pass the",
        "pinned suite, and need something specific to manifest; from the second round on they were also",
-       "told which ideas had been used before (thirteen rounds, two changes per property and round). Every change below was confirmed with `tools/seed_eval.sh`",
+       "told which ideas had been used before (fifteen rounds, two changes per property and round). Every change below was confirmed with `tools/seed_eval.sh`",
        "in a scratch worktree (patch applies, 140/140 baseline tests pass with it, its demonstration fails",
        "with and passes without it) before it was kept under `/verif/seeded/<name>/` (patch.diff, the",
        "demonstration renamed to `*.go.txt`, README.md, meta.json). The checks were run against each",
@@ -60,6 +60,8 @@ txt += ["",
         "Round 11: not counted - a local Close that closes the CloseNotify channel a moment before the transport (C14).",
         "Round 12: one pair was the same change seeded for two properties (Address.Padding computed as 4 - Len%4: C01 / C02), kept once; nothing was set aside as arguable.",
         "Round 13: two pairs were the same change (the Address decoder looking at the low octet of the family: C01 / C02; a blocking send in ServeMux.Error: C09 / C15), each kept once; 13 of the 38 kept changes are filed under the property whose check sees them rather than the one they were seeded for.",
+        "Round 14: five changes repeated, through another property's door, ideas already filed elsewhere (the all-zero Time payload, UTF8String length in characters, `Handle` upper-casing names, IPv6 brackets stripped only with a zone, the route cache not reset by `HandleIdx`) and one reverts fix `dda5ec7`; they are kept under the property they were seeded for, because what mattered was whether THAT property's check sees them. From round 15 on the sub-agents also get the names of all ideas filed under other properties.",
+        "Round 15: one change undoes fix `9f04de7` (group members serialised through buffers of their own); nothing was set aside as arguable, one scenario is (C08: a handler blocked inside `Load` of the live dictionary, which the library documents as unsupported).",
         "",
         "Not counted as violations, because the property does not decide the point (the checks stay",
         "silent on them, by design): a client that treats every 2xxx Result-Code in the CEA as success (C12",
